@@ -103,6 +103,12 @@ func app(f string, args ...string) string {
 	if len(args) == 0 {
 		return f
 	}
+	if len(args) == 1 && strings.HasPrefix(args[0], "(mk_slice ") && (f == "sbase" || f == "slen" || f == "scap") {
+		parts := splitSexp(args[0][1 : len(args[0])-1])
+		if len(parts) == 4 {
+			return parts[map[string]int{"sbase": 1, "slen": 2, "scap": 3}[f]]
+		}
+	}
 	if len(args) == 1 && strings.HasPrefix(args[0], "(mk.T.") {
 		if idx, ok := selIndex.Load(f); ok {
 			parts := splitSexp(args[0][1 : len(args[0])-1])
